@@ -131,7 +131,7 @@ def judge(case):
 
 
 def shards(tier):
-    k, n = (16, 25) if tier == "quick" else (64, 300)
+    k, n = (16, 40) if tier == "quick" else (64, 300)
     return [{"id": i, "n": n} for i in range(k)]
 
 
